@@ -145,7 +145,8 @@ func (e *c09Env) runCase(c c09Case, rnd *rand.Rand) {
 		}
 	}
 	name := fmt.Sprintf("c09_%d_%d", s.Pid(), atomic.AddInt64(&svcSeq, 1))
-	port := freePort()
+	port, releasePort := holdPort() // reserved against other processes until the proxy has bound it (or the case ends)
+	defer releasePort()
 	addr := fmt.Sprintf("127.0.0.1:%d", port)
 	var cfg []byte
 	if c.Proto == "redis" {
@@ -156,6 +157,7 @@ func (e *c09Env) runCase(c c09Case, rnd *rand.Rand) {
 	var occupier net.Listener
 	if c.Placement == "bind-retrying" {
 		var err error
+		releasePort()                           // the occupier must own the port exclusively
 		occupier, err = net.Listen("tcp", addr) // no SO_REUSEPORT: the proxy's bind fails and is retried every 500 ms
 		if err != nil {
 			r.Inconclusive("cannot-occupy-port")
